@@ -120,25 +120,22 @@ theorem verifyArgs_ok_iff_spec {A : Type} (undef : D) (pol : Gen.DlgTok D Policy
   cases Chain.verifyArgs (ds.map (toDlg undef pol)) args <;> simp [Except.mapError]
 
 /-- C01–C05, on the regenerated `executionAllowed` (its callees `verifyProofs`, `verifyTimeBound`, `verifyArgs`,
-`Policy.Match` regenerated as well; the model's `loadProofs` and statement evaluator for its external calls): it returns
+`Policy.Match` regenerated as well; a loader that answers like a table of delegations and the model's statement evaluator for its external calls): it returns
 nil EXACTLY when the proofs load and the chain satisfies the principal, command, time and policy clauses of the
 specification — soundness (C01–C04) and completeness (C05) in one statement about the translated code -/
 theorem executionAllowed_ok_iff_spec {X L A : Type} (x : X) (args : Node) (undef : D) (pol) (now : Int)
-    (extLoad : Gen.InvTok D C → L → GoM (List (Gen.DlgTok D Policy.Stmt)))
+    (extGet : L → C → GoM (Gen.DlgTok D Policy.Stmt))
     (extIPLD : A → GoM Node)
     (ldG : C → Option (Gen.DlgTok D Policy.Stmt))
     (g : Gen.InvTok D C) (loader : L) (a : A) (hs : g.subject ≠ undef)
-    (hload : extLoad g loader =
-      match g.proof.mapM ldG with
-      | some ds => .ok ds
-      | none => .error (chainErr .missingDelegation))
+    (hl : LoaderIs extGet loader ldG)
     (hipld : extIPLD a = .ok args)
     (hpol : ∀ c d, ldG c = some d → d.policy = (pol d).map some) :
-    Gen.Inv_executionAllowed now extLoad extMatch extIPLD g loader a = .ok () ↔
+    Gen.Inv_executionAllowed now extGet extMatch extIPLD g loader a = .ok () ↔
       ∃ ds, Chain.loadProofs (fun c => (ldG c).map (toDlg undef pol)) g.proof = .ok ds ∧
         Chain.PrincipalSpec (toInv x args g) ds ∧ Chain.CommandSpec (toInv x args g) ds ∧
         Chain.TimeSpec now (toInv x args g) ds ∧ Chain.PolicySpec ds args := by
-  rw [Inv_executionAllowed_eq x args undef pol now extLoad extIPLD ldG g loader a hs hload hipld hpol]
+  rw [Inv_executionAllowed_eq x args undef pol now extGet extIPLD ldG g loader a hs hl hipld hpol]
   have := Chain.C05_allowed_iff (fun c => (ldG c).map (toDlg undef pol)) now (toInv x args g) args
   have hprf : (toInv x args g).prf = g.proof := rfl
   rw [hprf] at this
@@ -155,14 +152,19 @@ example {X : Type} (x : X) (args : Node) (undef : D) (now : Int)
     (ldG : C → Option (Gen.DlgTok D Policy.Stmt)) (g : Gen.InvTok D C) (hs : g.subject ≠ undef)
     (hwf : ∀ c d, ldG c = some d → d.policy = (d.policy.filterMap id).map some) :
     let pol : Gen.DlgTok D Policy.Stmt → List Policy.Stmt := fun d => d.policy.filterMap id
-    let extLoad : Gen.InvTok D C → Unit → GoM (List (Gen.DlgTok D Policy.Stmt)) := fun g _ =>
-      match g.proof.mapM ldG with
-      | some ds => .ok ds
-      | none => .error (chainErr .missingDelegation)
-    Gen.Inv_executionAllowed now extLoad extMatch (fun (_ : Unit) => .ok args) g () () =
+    let extGet : Unit → C → GoM (Gen.DlgTok D Policy.Stmt) := fun _ c =>
+      match ldG c with
+      | some d => .ok d
+      | none => .error (.err "not found")
+    Gen.Inv_executionAllowed now extGet extMatch (fun (_ : Unit) => .ok args) g () () =
       liftE (Chain.executionAllowed (fun c => (ldG c).map (toDlg undef pol)) now (toInv x args g) args) := by
-  intro pol extLoad
-  exact Inv_executionAllowed_eq x args undef pol now extLoad _ ldG g () () hs rfl rfl hwf
+  intro pol extGet
+  have hl : LoaderIs extGet () ldG := by
+    intro c
+    cases h : ldG c with
+    | none => exact ⟨"not found", by simp [extGet, h]⟩
+    | some d => simp [extGet, h]
+  exact Inv_executionAllowed_eq x args undef pol now extGet _ ldG g () () hs hl rfl hwf
 
 -- "a*b" matches "axxb"; "\\*" matches "*" and not "a"; `/a` covers `/a/b`, not `/ab`; `[-2:]` of a 5-element list is [3,5)
 example : Gen.glob_Match [97, 42, 98] [97, 120, 120, 98] = .ok true := by
